@@ -300,6 +300,27 @@ func Eval(c Case) (problems []string, planErr string, nstmts int) {
 		moved := schema.NewTable("x").SetSchema(other).AddColumns(schema.NewIntColumn("id", "int"))
 		changes = []schema.Change{&schema.RenameTable{From: dfu.T(from, "u"), To: moved}}
 		wantErr = true
+	case "self_reference":
+		// a table with a foreign key to itself: created, the key added to an existing table, and dropped
+		// (its reverse re-creates table and key): the referenced table is written like the table itself.
+		mk := func() *schema.Table {
+			n := schema.NewTable("x").SetSchema(to)
+			n.AddColumns(schema.NewIntColumn("id", "int"), schema.NewIntColumn("parent_id", "int"))
+			n.SetPrimaryKey(schema.NewPrimaryKey(n.Columns[0]))
+			return n
+		}
+		withFK := mk()
+		withFK.AddForeignKeys(schema.NewForeignKey("x_parent").AddColumns(withFK.Columns[1]).SetRefTable(withFK).AddRefColumns(withFK.Columns[0]))
+		plain := mk()
+		fk := schema.NewForeignKey("x_parent").SetTable(plain).AddColumns(plain.Columns[1]).SetRefTable(plain).AddRefColumns(plain.Columns[0])
+		dropped := mk()
+		dropped.Name = "u"
+		dropped.AddForeignKeys(schema.NewForeignKey("u_parent").AddColumns(dropped.Columns[1]).SetRefTable(dropped).AddRefColumns(dropped.Columns[0]))
+		changes = []schema.Change{
+			&schema.AddTable{T: withFK},
+			&schema.ModifyTable{T: plain, Changes: []schema.Change{&schema.AddForeignKey{F: fk}}},
+			&schema.DropTable{T: dropped},
+		}
 	case "rename_enum":
 		// an enum type of this schema is renamed (next to a new one): the type is referenced like in
 		// every other statement; the new name is not qualified (ALTER TYPE .. RENAME TO takes a bare name).
@@ -392,7 +413,7 @@ func cases(tier string) []Case {
 	for _, d := range []*dfu.Dialect{dfu.MySQL, dfu.Postgres} {
 		for _, q := range quals {
 			for _, m := range modes {
-				for _, k := range []string{"create_all", "drop_all", "two_schemas", "two_schemas_drop_modify", "enum_in_other_schema", "fk_to_other_schema", "schemaless_tables", "rename_enum", "drop_fk_to_other_schema", "modify_fk_from_other_schema", "rename_table_across_schemas", "add_schema", "drop_schema", "modify_schema"} {
+				for _, k := range []string{"create_all", "drop_all", "two_schemas", "two_schemas_drop_modify", "enum_in_other_schema", "fk_to_other_schema", "schemaless_tables", "self_reference", "rename_enum", "drop_fk_to_other_schema", "modify_fk_from_other_schema", "rename_table_across_schemas", "add_schema", "drop_schema", "modify_schema"} {
 					cs = append(cs, Case{d.Name, k, nil, q, m})
 				}
 				es := dfu.Edits(d)
